@@ -45,6 +45,29 @@ type Opt16 struct {
 	Vals  []string `json:"vals,omitempty"`  // values (the call id is prepended at call time)
 	Path  []string `json:"path,omitempty"`  // designated node path (nil = undesignated)
 	Path2 []string `json:"path2,omitempty"` // optional second designated path of the same option
+	// Option values are immutable: further options may be derived from one base value.
+	Extra    [][]string `json:"extra,omitempty"`    // paths added to the base one Designate call at a time
+	Sibs     [][]string `json:"sibs,omitempty"`     // one derived option per entry: base.DesignateNodeWithPath(entry); all are created before any is used
+	DropBase bool       `json:"dropbase,omitempty"` // the base itself is not passed to the call
+}
+
+// effective lists the options a generated entry stands for: (paths) per option passed to the call.
+func (o Opt16) effective() [][][]string {
+	var base [][]string
+	for _, p := range [][]string{o.Path, o.Path2} {
+		if p != nil {
+			base = append(base, p)
+		}
+	}
+	base = append(base, o.Extra...)
+	var out [][][]string
+	if !o.DropBase || len(o.Sibs) == 0 {
+		out = append(out, base)
+	}
+	for _, sb := range o.Sibs {
+		out = append(out, append(append([][]string(nil), base...), sb))
+	}
+	return out
 }
 
 type Call16 struct {
@@ -245,36 +268,35 @@ func route(c CaseC16, call Call16, callID string) (map[string][]string, string) 
 		for i, v := range o.Vals {
 			vals[i] = callID + ":" + v
 		}
-		if o.Path == nil {
-			for _, n := range all {
-				if n.kind == o.Kind {
-					exp[n.path] = append(exp[n.path], vals...)
-				}
-			}
-			continue
-		}
-		for _, pth := range [][]string{o.Path, o.Path2} {
-			if pth == nil {
-				continue
-			}
-			kind, ec := find(c.Nodes, pth)
-			if ec != "" {
-				return nil, ec
-			}
-			target := strings.Join(pth, "/")
-			if kind == "G" || kind == "W" {
-				// designating a graph node addresses the nodes of that type inside it
+		for _, pathsOfOpt := range o.effective() {
+			if len(pathsOfOpt) == 0 {
 				for _, n := range all {
-					if strings.HasPrefix(n.path, target+"/") && n.kind == o.Kind {
+					if n.kind == o.Kind {
 						exp[n.path] = append(exp[n.path], vals...)
 					}
 				}
 				continue
 			}
-			if kind != o.Kind {
-				return nil, "wrong-option-type"
+			for _, pth := range pathsOfOpt {
+				kind, ec := find(c.Nodes, pth)
+				if ec != "" {
+					return nil, ec
+				}
+				target := strings.Join(pth, "/")
+				if kind == "G" || kind == "W" {
+					// designating a graph node addresses the nodes of that type inside it
+					for _, n := range all {
+						if strings.HasPrefix(n.path, target+"/") && n.kind == o.Kind {
+							exp[n.path] = append(exp[n.path], vals...)
+						}
+					}
+					continue
+				}
+				if kind != o.Kind {
+					return nil, "wrong-option-type"
+				}
+				exp[target] = append(exp[target], vals...)
 			}
-			exp[target] = append(exp[target], vals...)
 		}
 	}
 	return exp, ""
@@ -330,7 +352,17 @@ func buildOpts(call Call16, callID string, rec *rec16) []compose.Option {
 				opt = opt.DesignateNodeWithPath(compose.NewNodePath(o.Path...), compose.NewNodePath(o.Path2...))
 			}
 		}
-		opts = append(opts, opt)
+		for _, e := range o.Extra {
+			opt = opt.DesignateNodeWithPath(compose.NewNodePath(e...))
+		}
+		var derived []compose.Option
+		for _, sb := range o.Sibs {
+			derived = append(derived, opt.DesignateNodeWithPath(compose.NewNodePath(sb...)))
+		}
+		if !o.DropBase || len(o.Sibs) == 0 {
+			opts = append(opts, opt)
+		}
+		opts = append(opts, derived...)
 	}
 	return opts
 }
@@ -401,6 +433,9 @@ func checkC16(c CaseC16) (*vkit.Failure, vkit.Meta) {
 				}
 				if o.Path == nil && o.Kind != "cb" {
 					undesignated = true
+				}
+				if len(o.Sibs) >= 2 {
+					m.Labels = append(m.Labels, "options-derived-from-one-base")
 				}
 			}
 			exp, ec := route(c, call, callID)
@@ -533,6 +568,32 @@ func genC16(t *rapid.T) CaseC16 {
 				// a path that continues below an existing node
 				p := strings.Split(paths[rapid.IntRange(0, len(paths)-1).Draw(t, "base")], "/")
 				o.Path = append(p, "below")
+			}
+			if o.Kind != "cb" && (o.Path == nil || len(o.Path) > 0) && rapid.IntRange(0, 2).Draw(t, "derive") == 0 {
+				// derive further options from the base value; targets are leaf nodes of the option's kind
+				var leaves []string
+				for _, n := range all {
+					if n.kind == o.Kind {
+						leaves = append(leaves, n.path)
+					}
+				}
+				valid := true
+				for _, pth := range [][]string{o.Path, o.Path2} {
+					if pth != nil {
+						if _, ec := find(c.Nodes, pth); ec != "" {
+							valid = false
+						}
+					}
+				}
+				if len(leaves) > 0 && valid {
+					for k := rapid.IntRange(0, 3).Draw(t, "nExtra"); k > 0; k-- {
+						o.Extra = append(o.Extra, strings.Split(leaves[rapid.IntRange(0, len(leaves)-1).Draw(t, "extra")], "/"))
+					}
+					for k := rapid.IntRange(1, 3).Draw(t, "nSibs"); k > 0; k-- {
+						o.Sibs = append(o.Sibs, strings.Split(leaves[rapid.IntRange(0, len(leaves)-1).Draw(t, "sib")], "/"))
+					}
+					o.DropBase = rapid.Bool().Draw(t, "dropBase")
+				}
 			}
 			call.Opts = append(call.Opts, o)
 		}
